@@ -61,7 +61,7 @@ class World:
         return self.handler(self, e)
 
 
-def make_method(world_box, provider, name, is_async, uid, wrapped_plain=False):
+def make_method(world_box, provider, name, is_async, uid, wrapped_plain=False, with_signature=False):
     if is_async:
         import inspect
 
@@ -89,6 +89,11 @@ def make_method(world_box, provider, name, is_async, uid, wrapped_plain=False):
             return world_box[0].cb(provider, name, self, args, kwargs)
 
     m.__name__ = name
+    if with_signature:
+        # what signature-preserving decorators and spies leave behind: an explicit __signature__ on the callable
+        import inspect as _inspect
+
+        m.__signature__ = _inspect.signature(m)
     # uid may be a string "twin:<n>": then the plain and the coroutine rendering share one qualified name
     suffix = "" if str(uid).startswith("twin:") else f".{'a' if is_async else 's'}"
     m.__qualname__ = f"VM{uid}.{provider}.{name}{suffix}"
@@ -105,6 +110,7 @@ def render(am, world_box, class_name=None, strict_states=False, uid=None):
     uid = next(_uid) if uid is None else uid
     asyncs = {tuple(x) for x in am.get("async", [])}
     plain_wrapped = {tuple(x) for x in am.get("async_behind_plain_decorator", [])}
+    sigged = {tuple(x) for x in am.get("with_signature_attribute", [])}
     attrs = {}
     states = {}
     for s in am["states"]:
@@ -144,7 +150,7 @@ def render(am, world_box, class_name=None, strict_states=False, uid=None):
             states[t["src"]].to(states[t["tgt"]], event=" ".join(t["events"]), **kw)
     methods = am.get("methods", {})
     for name in methods.get("machine", []):
-        attrs[name] = make_method(world_box, "machine", name, ("machine", name) in asyncs, uid, ("machine", name) in plain_wrapped)
+        attrs[name] = make_method(world_box, "machine", name, ("machine", name) in asyncs, uid, ("machine", name) in plain_wrapped, ("machine", name) in sigged)
     for name, val in am.get("class_attrs", {}).items():
         attrs[name] = val
     cname = class_name or f"VM{uid}"
@@ -152,7 +158,7 @@ def render(am, world_box, class_name=None, strict_states=False, uid=None):
     out = {"cls": cls, "model_cls": None, "listener_classes": [], "uid": uid}
     if "model" in methods:
         mattrs = {
-            name: make_method(world_box, "model", name, ("model", name) in asyncs, uid)
+            name: make_method(world_box, "model", name, ("model", name) in asyncs, uid, False, ("model", name) in sigged)
             for name in methods["model"]
         }
 
@@ -171,7 +177,7 @@ def render(am, world_box, class_name=None, strict_states=False, uid=None):
     while f"listener{i}" in methods:
         prov = f"listener{i}"
         lattrs = {
-            name: make_method(world_box, prov, name, (prov, name) in asyncs, uid) for name in methods[prov]
+            name: make_method(world_box, prov, name, (prov, name) in asyncs, uid, False, (prov, name) in sigged) for name in methods[prov]
         }
         out["listener_classes"].append(type(f"Listener{uid}_{i}", (), lattrs))
         i += 1
